@@ -379,3 +379,39 @@ Lemma auto_tags_partial e root o :
   in_region_auto (root_config e root) o = false ->
   impl_union_auto (root_config e root) = spec_union_auto (effective o root).
 Proof. intros H. rewrite (auto_tags_config _ _ H). now rewrite bound_is_effective. Qed.
+
+(* ---- earlier uses of the class (global per-class tables) --------------------- *)
+Lemma binding_eta b : {| ld_case := ld_case b; dp_case := dp_case b; dt_timestamp := dt_timestamp b |} = b.
+Proof. now destruct b. Qed.
+
+(* first use in the interpreter: exactly the behaviour of a stand-alone class with Meta own | config *)
+Lemma hist_fresh o u :
+  hist_behaviour o [] u = spec_behaviour (bound_meta (config_of_use u) o).
+Proof.
+  rewrite <- behaviour_config. unfold hist_behaviour, impl_behaviour, run_uses. cbn [fold_left].
+  unfold step. cbn [g_bind g_dump_keys g0].
+  set (b := match config_of_use u with
+            | Some _ => match bound_meta (config_of_use u) o with
+                        | Some mm => bind_to mm (own_binding o)
+                        | None => own_binding o
+                        end
+            | None => own_binding o
+            end).
+  assert (E : match (match u_kind u with UDump => Some (dp_case b) | ULoad => None end) with
+              | Some k => k | None => dp_case b end = dp_case b) by now destruct (u_kind u).
+  destruct (u_kind u); cbn [g_dump_keys]; now rewrite binding_eta.
+Qed.
+
+Lemma hist_fresh_effective o root k :
+  hist_behaviour o [] {| u_kind := k; u_root := Some root |} = spec_behaviour (effective o root).
+Proof. rewrite hist_fresh. cbn [config_of_use u_root]. f_equal. exact (bound_is_effective LoadV0 root o). Qed.
+
+(* whatever happened before: the skip rules, the unknown-key policies, the tag, the emitted tag key and the
+   explicit key maps are those of effective(own, root) *)
+Lemma hist_stable o h u :
+  stable_part (hist_behaviour o h u) = stable_part (spec_behaviour (bound_meta (config_of_use u) o)).
+Proof. reflexivity. Qed.
+
+Lemma hist_stable_effective o h root k :
+  stable_part (hist_behaviour o h {| u_kind := k; u_root := Some root |}) = stable_part (spec_behaviour (effective o root)).
+Proof. rewrite hist_stable. cbn [config_of_use u_root]. do 2 f_equal. exact (bound_is_effective LoadV0 root o). Qed.
